@@ -1,6 +1,7 @@
 from vdriver import Job
+from props import seqcases
 
-LEVEL = "proof"
+LEVEL = "other"
 TECHNIQUE = "CBMC contracts on header_init/alloc/dealloc/del (DFCC + harness proofs through the real Type.c lookup), non-heap receivers of String/Tuple mutators as exceptional postconditions"
 LEVEL_TEXT = "placeholder"
 NOTE = "placeholder"
@@ -25,4 +26,5 @@ def jobs(tier):
             J.append(Job("C19.%s.%s" % (h, t), "C19", "K2", "Alloc/k2.c", "h_" + h, FUNCS, link=L, defines=["TYPE_UNDER_TEST=%s" % t, "TSTRUCT=%s" % st],
                          replace_calls=["exception_throw:cv_throw"], unwind=20, group="C19.%s.k2" % h, also=["C12", "C06"], case="type %s" % t,
                          replay="C19_dealloc.c"))
+    J += seqcases.array_jobs(tier, "C19")
     return J
